@@ -61,23 +61,25 @@ func checkTokenize(line string, ds delimSpec) (ntok int, msg string) {
 	return len(tokens), ""
 }
 
+func propC10Tokenize(t *rapid.T) {
+	line := c10Line(t)
+	ds := mkDelimSpec(rapid.SampledFrom(delimArgs).Draw(t, "delim"))
+	n, msg := checkTokenize(line, ds)
+	multibyteFirst := false
+	for _, r := range line {
+		if r >= 0x80 {
+			multibyteFirst = true
+		}
+		break
+	}
+	vstat.Case("C10/tokenize", line+"|"+ds.arg, n >= 3 || multibyteFirst, "delim="+ds.arg, fmt.Sprintf("fields=%d", imin(n, 6)))
+	if msg != "" {
+		t.Fatalf("line %q delimiter %q: %s", line, ds.arg, msg)
+	}
+}
+
 func TestVerifC10_Tokenize(t *testing.T) {
-	rapid.Check(t, func(t *rapid.T) {
-		line := c10Line(t)
-		ds := mkDelimSpec(rapid.SampledFrom(delimArgs).Draw(t, "delim"))
-		n, msg := checkTokenize(line, ds)
-		multibyteFirst := false
-		for _, r := range line {
-			if r >= 0x80 {
-				multibyteFirst = true
-			}
-			break
-		}
-		vstat.Case("C10/tokenize", line+"|"+ds.arg, n >= 3 || multibyteFirst, "delim="+ds.arg, fmt.Sprintf("fields=%d", imin(n, 6)))
-		if msg != "" {
-			t.Fatalf("line %q delimiter %q: %s", line, ds.arg, msg)
-		}
-	})
+	rapid.Check(t, propC10Tokenize)
 }
 
 func imin(a, b int) int {
@@ -189,201 +191,205 @@ func TestVerifC10_RangesExhaustive(t *testing.T) {
 }
 
 // Random lines / larger bounds / lists of ranges.
+func propC10RangesRandom(t *rapid.T) {
+	line := c10Line(t)
+	ds := mkDelimSpec(rapid.SampledFrom(delimArgs).Draw(t, "delim"))
+	tokens := Tokenize(line, ds.d)
+	fields := oracle.Split(line, ds.o)
+	nr := rapid.IntRange(1, 3).Draw(t, "nranges")
+	var rs []Range
+	var ors []oracle.FieldRange
+	var spell []string
+	for i := 0; i < nr; i++ {
+		b := rapid.IntRange(-7, 7).Draw(t, "b")
+		e := rapid.IntRange(-7, 7).Draw(t, "e")
+		var s string
+		switch rapid.IntRange(0, 3).Draw(t, "form") {
+		case 0:
+			if b == 0 {
+				b = 1
+			}
+			s = fmt.Sprint(b)
+		case 1:
+			if b == 0 {
+				s = ".."
+			} else {
+				s = fmt.Sprintf("%d..", b)
+			}
+		case 2:
+			if e == 0 {
+				s = ".."
+			} else {
+				s = fmt.Sprintf("..%d", e)
+			}
+		default:
+			if b == 0 || e == 0 || b < 0 && e > 0 {
+				s = ".."
+			} else {
+				s = fmt.Sprintf("%d..%d", b, e)
+			}
+		}
+		r, ok := ParseRange(&s)
+		or, ook := oracle.ParseFieldRange(s)
+		if !ok || !ook {
+			t.Fatalf("range %q rejected (fzf %v, model %v)", s, ok, ook)
+		}
+		rs = append(rs, r)
+		ors = append(ors, or)
+		spell = append(spell, s)
+	}
+	trans := Transform(tokens, rs)
+	nt := len(fields) >= 3
+	for i := range rs {
+		want, off, any := oracle.Select(fields, ors[i])
+		if got := trans[i].text.ToString(); got != want {
+			t.Fatalf("line %q delimiter %q range %q: selected %q, documented selection is %q", line, ds.arg, spell[i], got, want)
+		}
+		if any && int(trans[i].prefixLength) != off {
+			t.Fatalf("line %q delimiter %q range %q: offset %d, want %d", line, ds.arg, spell[i], trans[i].prefixLength, off)
+		}
+	}
+	// --with-nth display text and the {N}-style selection with stripping
+	nthStr := strings.Join(spell, ",")
+	factory, err := nthTransformer(nthStr)
+	if err != nil {
+		t.Fatalf("nthTransformer(%q): %v", nthStr, err)
+	}
+	got := factory(ds.d)(tokens, 0)
+	want := ""
+	for _, or := range ors {
+		s, _, _ := oracle.Select(fields, or)
+		want += s
+	}
+	if got != want {
+		t.Fatalf("line %q delimiter %q --with-nth %q: %q, model %q", line, ds.arg, nthStr, got, want)
+	}
+	// template form / --accept-nth / {N}: each placeholder is stripped of its last delimiter
+	tmpl := ""
+	wantT := ""
+	for i, s := range spell {
+		tmpl += fmt.Sprintf("<{%s}>", s)
+		sel, _, _ := oracle.Select(fields, ors[i])
+		wantT += "<" + oracle.StripLastDelim(sel, ds.o) + ">"
+	}
+	factory, err = nthTransformer(tmpl)
+	if err != nil {
+		t.Fatalf("nthTransformer(%q): %v", tmpl, err)
+	}
+	if gotT := factory(ds.d)(tokens, 0); gotT != wantT {
+		t.Fatalf("line %q delimiter %q template %q: %q, model %q", line, ds.arg, tmpl, gotT, wantT)
+	}
+	vstat.Case("C10/ranges-random", line+"|"+ds.arg+"|"+nthStr, nt, "delim="+ds.arg, fmt.Sprintf("nranges=%d", nr))
+	if nt && vstat.WantSample("C10/ranges-random") {
+		vstat.Sample("C10/ranges-random", map[string]interface{}{"line": line, "delimiter": ds.arg, "nth": nthStr, "with_nth_text": got})
+	}
+}
+
 func TestVerifC10_RangesRandom(t *testing.T) {
-	rapid.Check(t, func(t *rapid.T) {
-		line := c10Line(t)
-		ds := mkDelimSpec(rapid.SampledFrom(delimArgs).Draw(t, "delim"))
-		tokens := Tokenize(line, ds.d)
-		fields := oracle.Split(line, ds.o)
-		nr := rapid.IntRange(1, 3).Draw(t, "nranges")
-		var rs []Range
-		var ors []oracle.FieldRange
-		var spell []string
-		for i := 0; i < nr; i++ {
-			b := rapid.IntRange(-7, 7).Draw(t, "b")
-			e := rapid.IntRange(-7, 7).Draw(t, "e")
-			var s string
-			switch rapid.IntRange(0, 3).Draw(t, "form") {
-			case 0:
-				if b == 0 {
-					b = 1
-				}
-				s = fmt.Sprint(b)
-			case 1:
-				if b == 0 {
-					s = ".."
-				} else {
-					s = fmt.Sprintf("%d..", b)
-				}
-			case 2:
-				if e == 0 {
-					s = ".."
-				} else {
-					s = fmt.Sprintf("..%d", e)
-				}
-			default:
-				if b == 0 || e == 0 || b < 0 && e > 0 {
-					s = ".."
-				} else {
-					s = fmt.Sprintf("%d..%d", b, e)
-				}
-			}
-			r, ok := ParseRange(&s)
-			or, ook := oracle.ParseFieldRange(s)
-			if !ok || !ook {
-				t.Fatalf("range %q rejected (fzf %v, model %v)", s, ok, ook)
-			}
-			rs = append(rs, r)
-			ors = append(ors, or)
-			spell = append(spell, s)
-		}
-		trans := Transform(tokens, rs)
-		nt := len(fields) >= 3
-		for i := range rs {
-			want, off, any := oracle.Select(fields, ors[i])
-			if got := trans[i].text.ToString(); got != want {
-				t.Fatalf("line %q delimiter %q range %q: selected %q, documented selection is %q", line, ds.arg, spell[i], got, want)
-			}
-			if any && int(trans[i].prefixLength) != off {
-				t.Fatalf("line %q delimiter %q range %q: offset %d, want %d", line, ds.arg, spell[i], trans[i].prefixLength, off)
-			}
-		}
-		// --with-nth display text and the {N}-style selection with stripping
-		nthStr := strings.Join(spell, ",")
-		factory, err := nthTransformer(nthStr)
-		if err != nil {
-			t.Fatalf("nthTransformer(%q): %v", nthStr, err)
-		}
-		got := factory(ds.d)(tokens, 0)
-		want := ""
-		for _, or := range ors {
-			s, _, _ := oracle.Select(fields, or)
-			want += s
-		}
-		if got != want {
-			t.Fatalf("line %q delimiter %q --with-nth %q: %q, model %q", line, ds.arg, nthStr, got, want)
-		}
-		// template form / --accept-nth / {N}: each placeholder is stripped of its last delimiter
-		tmpl := ""
-		wantT := ""
-		for i, s := range spell {
-			tmpl += fmt.Sprintf("<{%s}>", s)
-			sel, _, _ := oracle.Select(fields, ors[i])
-			wantT += "<" + oracle.StripLastDelim(sel, ds.o) + ">"
-		}
-		factory, err = nthTransformer(tmpl)
-		if err != nil {
-			t.Fatalf("nthTransformer(%q): %v", tmpl, err)
-		}
-		if gotT := factory(ds.d)(tokens, 0); gotT != wantT {
-			t.Fatalf("line %q delimiter %q template %q: %q, model %q", line, ds.arg, tmpl, gotT, wantT)
-		}
-		vstat.Case("C10/ranges-random", line+"|"+ds.arg+"|"+nthStr, nt, "delim="+ds.arg, fmt.Sprintf("nranges=%d", nr))
-		if nt && vstat.WantSample("C10/ranges-random") {
-			vstat.Sample("C10/ranges-random", map[string]interface{}{"line": line, "delimiter": ds.arg, "nth": nthStr, "with_nth_text": got})
-		}
-	})
+	rapid.Check(t, propC10RangesRandom)
 }
 
 // --nth: a term can only match inside the selected fields, and the reported
 // offsets / positions refer to the characters of the full line.
-func TestVerifC10_NthMatch(t *testing.T) {
-	rapid.Check(t, func(t *rapid.T) {
-		line := c10Line(t)
-		ds := mkDelimSpec(rapid.SampledFrom([]string{"", ",", ":", "[,;]+", "\\t", ";"}).Draw(t, "delim"))
-		fields := oracle.Split(line, ds.o)
-		nr := rapid.IntRange(1, 2).Draw(t, "nranges")
-		var rs []Range
-		var ors []oracle.FieldRange
-		var spell []string
-		for i := 0; i < nr; i++ {
-			s := rapid.SampledFrom([]string{"1", "2", "3", "-1", "-2", "2..", "..2", "2..3", "-2..", ".."}).Draw(t, "range")
-			r, _ := ParseRange(&s)
-			or, _ := oracle.ParseFieldRange(s)
-			rs, ors, spell = append(rs, r), append(ors, or), append(spell, s)
-		}
-		// term without blanks or delimiter characters (see DESIGN: the extent of a
-		// field's trailing delimiter is an observed convention, not a documented one)
-		body := string(rapid.SliceOfN(rapid.SampledFrom([]rune("abé漢x1")), 1, 3).Draw(t, "body"))
-		kind := oracle.TermKind(rapid.SampledFrom([]int{0, 0, 1, 2, 3}).Draw(t, "kind"))
-		fuzzyAlgo := algo.FuzzyMatchV2
-		if rapid.Bool().Draw(t, "v1") {
-			fuzzyAlgo = algo.FuzzyMatchV1
-		}
-		forward := rapid.Bool().Draw(t, "forward")
-		withPos := rapid.Bool().Draw(t, "withPos")
-		qtext := oracle.RenderTerm(oracle.Term{Kind: kind, Body: body}, false)
-		algo.Init("default")
-		pat := BuildPattern(NewChunkCache(), map[string]*Pattern{}, true, fuzzyAlgo, true, CaseSmart, true, forward, withPos, false, rs, ds.d, revision{}, []rune(qtext), nil)
-		item := vItem(line, 0)
-		slab := util.MakeSlab(slab16Size, slab32Size)
-		res, offsets, pos := pat.MatchItem(item, withPos, slab)
+func propC10NthMatch(t *rapid.T) {
+	line := c10Line(t)
+	ds := mkDelimSpec(rapid.SampledFrom([]string{"", ",", ":", "[,;]+", "\\t", ";"}).Draw(t, "delim"))
+	fields := oracle.Split(line, ds.o)
+	nr := rapid.IntRange(1, 2).Draw(t, "nranges")
+	var rs []Range
+	var ors []oracle.FieldRange
+	var spell []string
+	for i := 0; i < nr; i++ {
+		s := rapid.SampledFrom([]string{"1", "2", "3", "-1", "-2", "2..", "..2", "2..3", "-2..", ".."}).Draw(t, "range")
+		r, _ := ParseRange(&s)
+		or, _ := oracle.ParseFieldRange(s)
+		rs, ors, spell = append(rs, r), append(ors, or), append(spell, s)
+	}
+	// term without blanks or delimiter characters (see DESIGN: the extent of a
+	// field's trailing delimiter is an observed convention, not a documented one)
+	body := string(rapid.SliceOfN(rapid.SampledFrom([]rune("abé漢x1")), 1, 3).Draw(t, "body"))
+	kind := oracle.TermKind(rapid.SampledFrom([]int{0, 0, 1, 2, 3}).Draw(t, "kind"))
+	fuzzyAlgo := algo.FuzzyMatchV2
+	if rapid.Bool().Draw(t, "v1") {
+		fuzzyAlgo = algo.FuzzyMatchV1
+	}
+	forward := rapid.Bool().Draw(t, "forward")
+	withPos := rapid.Bool().Draw(t, "withPos")
+	qtext := oracle.RenderTerm(oracle.Term{Kind: kind, Body: body}, false)
+	algo.Init("default")
+	pat := BuildPattern(NewChunkCache(), map[string]*Pattern{}, true, fuzzyAlgo, true, CaseSmart, true, forward, withPos, false, rs, ds.d, revision{}, []rune(qtext), nil)
+	item := vItem(line, 0)
+	slab := util.MakeSlab(slab16Size, slab32Size)
+	res, offsets, pos := pat.MatchItem(item, withPos, slab)
 
-		// model: the term has a witness inside one of the selected texts
-		qo := oracle.QueryOpts{Extended: true}
-		type sel struct {
-			text     []rune
-			off, end int
+	// model: the term has a witness inside one of the selected texts
+	qo := oracle.QueryOpts{Extended: true}
+	type sel struct {
+		text     []rune
+		off, end int
+	}
+	var sels []sel
+	for _, or := range ors {
+		s, off, any := oracle.Select(fields, or)
+		if any {
+			sels = append(sels, sel{[]rune(s), off, off + len([]rune(s))})
 		}
-		var sels []sel
-		for _, or := range ors {
-			s, off, any := oracle.Select(fields, or)
-			if any {
-				sels = append(sels, sel{[]rune(s), off, off + len([]rune(s))})
-			}
+	}
+	expect := false
+	for _, s := range sels {
+		if oracle.EvalTermOn(oracle.Term{Kind: kind, Body: body}, qo, [][]rune{s.text}) {
+			expect = true
 		}
-		expect := false
+	}
+	runes := []rune(line)
+	nt := len(fields) >= 3 && expect
+	vstat.Case("C10/nth-match", fmt.Sprintf("%q|%s|%v|%s|%v|%v", line, ds.arg, spell, qtext, forward, withPos), nt, "delim="+ds.arg, "kind="+kind.String())
+	if nt && vstat.WantSample("C10/nth-match") {
+		vstat.Sample("C10/nth-match", map[string]interface{}{"line": line, "delimiter": ds.arg, "nth": spell, "query": qtext, "offsets": fmt.Sprint(offsets)})
+	}
+	if (res != nil) != expect {
+		t.Fatalf("line %q delimiter %q --nth %v query %q: matched=%v, but the term %s a witness inside the selected fields %q", line, ds.arg, spell, qtext, res != nil,
+			map[bool]string{true: "has", false: "has no"}[expect], selTexts(fields, ors))
+	}
+	if res == nil {
+		return
+	}
+	pt, f := oracle.PrepareTerm(body, body, oracle.CaseSmart, false)
+	folded := f.FoldRunes(runes)
+	for _, o := range offsets {
+		b, e := int(o[0]), int(o[1])
+		if b < 0 || e > len(runes) || b > e {
+			t.Fatalf("line %q --nth %v query %q: offset [%d,%d) outside the line", line, spell, qtext, b, e)
+		}
+		inside := false
 		for _, s := range sels {
-			if oracle.EvalTermOn(oracle.Term{Kind: kind, Body: body}, qo, [][]rune{s.text}) {
-				expect = true
+			if b >= s.off && e <= s.end {
+				inside = true
 			}
 		}
-		runes := []rune(line)
-		nt := len(fields) >= 3 && expect
-		vstat.Case("C10/nth-match", fmt.Sprintf("%q|%s|%v|%s|%v|%v", line, ds.arg, spell, qtext, forward, withPos), nt, "delim="+ds.arg, "kind="+kind.String())
-		if nt && vstat.WantSample("C10/nth-match") {
-			vstat.Sample("C10/nth-match", map[string]interface{}{"line": line, "delimiter": ds.arg, "nth": spell, "query": qtext, "offsets": fmt.Sprint(offsets)})
+		if !inside {
+			t.Fatalf("line %q delimiter %q --nth %v query %q: match range [%d,%d) is not inside a selected field", line, ds.arg, spell, qtext, b, e)
 		}
-		if (res != nil) != expect {
-			t.Fatalf("line %q delimiter %q --nth %v query %q: matched=%v, but the term %s a witness inside the selected fields %q", line, ds.arg, spell, qtext, res != nil,
-				map[bool]string{true: "has", false: "has no"}[expect], selTexts(fields, ors))
+		if !oracle.IsSubsequence(folded[b:e], pt) {
+			t.Fatalf("line %q --nth %v query %q: characters [%d,%d) of the full line (%q) do not contain the term", line, spell, qtext, b, e, string(runes[b:e]))
 		}
-		if res == nil {
-			return
+	}
+	if withPos && pos != nil {
+		ps := append([]int{}, (*pos)...)
+		if len(ps) != len(pt) {
+			t.Fatalf("line %q --nth %v query %q: %d positions for %d characters", line, spell, qtext, len(ps), len(pt))
 		}
-		pt, f := oracle.PrepareTerm(body, body, oracle.CaseSmart, false)
-		folded := f.FoldRunes(runes)
-		for _, o := range offsets {
-			b, e := int(o[0]), int(o[1])
-			if b < 0 || e > len(runes) || b > e {
-				t.Fatalf("line %q --nth %v query %q: offset [%d,%d) outside the line", line, spell, qtext, b, e)
-			}
-			inside := false
-			for _, s := range sels {
-				if b >= s.off && e <= s.end {
-					inside = true
-				}
-			}
-			if !inside {
-				t.Fatalf("line %q delimiter %q --nth %v query %q: match range [%d,%d) is not inside a selected field", line, ds.arg, spell, qtext, b, e)
-			}
-			if !oracle.IsSubsequence(folded[b:e], pt) {
-				t.Fatalf("line %q --nth %v query %q: characters [%d,%d) of the full line (%q) do not contain the term", line, spell, qtext, b, e, string(runes[b:e]))
+		sortInts(ps)
+		for i, p := range ps {
+			if p < 0 || p >= len(folded) || folded[p] != pt[i] {
+				t.Fatalf("line %q delimiter %q --nth %v query %q: position %d of the full line does not hold %q (positions %v)", line, ds.arg, spell, qtext, p, pt[i], ps)
 			}
 		}
-		if withPos && pos != nil {
-			ps := append([]int{}, (*pos)...)
-			if len(ps) != len(pt) {
-				t.Fatalf("line %q --nth %v query %q: %d positions for %d characters", line, spell, qtext, len(ps), len(pt))
-			}
-			sortInts(ps)
-			for i, p := range ps {
-				if p < 0 || p >= len(folded) || folded[p] != pt[i] {
-					t.Fatalf("line %q delimiter %q --nth %v query %q: position %d of the full line does not hold %q (positions %v)", line, ds.arg, spell, qtext, p, pt[i], ps)
-				}
-			}
-		}
-	})
+	}
+}
+
+func TestVerifC10_NthMatch(t *testing.T) {
+	rapid.Check(t, propC10NthMatch)
 }
 
 func selTexts(fields []oracle.Field, ors []oracle.FieldRange) []string {
